@@ -328,6 +328,7 @@ def history_builders():
         "reads-interleaved": lambda topo, P, eng: c14.build_variant(topo, P, {"order": c14.default_order(topo), "touch": True}, eng),
         "decoy-links-replaced": lambda topo, P, eng: c14.build_variant(topo, P, {"decoy": "links"}, eng),
         "decoy-attachments-replaced": lambda topo, P, eng: c14.build_variant(topo, P, {"decoy": "attach"}, eng),
+        "reads-then-bulk-links": lambda topo, P, eng: c14.build_reads_then_bulk(topo, P, eng),
         # all links are called "seg", all origins and destinations "od", all nodes "n" (NumPy engines only: the CasADi
         # encodings of this module bind function arguments by name)
         "same-names": lambda topo, P, eng: T_.build(topo, P, rename=lambda s: {"L": "seg", "O": "od", "D": "od"}.get(s[0], "n")),
